@@ -5,6 +5,7 @@
 From Coq Require Import List Bool Arith.
 From Tally Require Import Model.FirstUse Proof.FirstUseP.
 From Tally Require Model.Registry Proof.RegistryP Proof.Registry2P.
+From Tally Require Model.Locks Proof.LocksP Gen.LockSkel Proof.LockSkelOk.
 Import ListNotations.
 
 (* all requests for the same (kind, name) on a scope - whichever goroutine makes them,
@@ -51,3 +52,37 @@ Example C09_example :
   let s := run (init [th; th; th]) [0; 1; 0; 2; 1; 0; 1; 2] in
   gets s = [((0, 0), 0); ((0, 0), 0); ((0, 0), 0)] /\ allocs s = [(0, 0)] /\ recs s = [3].
 Proof. vm_compute. repeat split. Qed.
+
+(* "... and none of this can deadlock" / "... without deadlock": the locks of package tally.
+   [LockSkel.procs] is the lock skeleton of the package, regenerated from the Go sources on
+   every run (harness/lockx); an application goroutine performs any sequence of calls of the
+   package's exported functions and methods (Counter, Gauge, Timer, Histogram, Tagged, SubScope,
+   Snapshot, Close, Record, ... - [LockSkel.api]), the package's own goroutines run the report
+   loop ([LockSkel.bg]).  Lock instances are arbitrary ([cls] maps an instance to its class);
+   the semantics is Go's RWMutex with writer preference plus WaitGroup.Wait (Model/Locks.v).
+   For ANY number of goroutines and ANY schedule: whenever some goroutine is blocked, another
+   goroutine is able to move - no reachable state is a deadlock. *)
+Theorem C09_no_deadlock_on_locks :
+  forall (cls : nat -> nat) (gs : list (list Locks.gop)) (sched : list nat),
+  (forall g, In g gs -> LockSkelOk.app_goroutine cls g \/ LockSkelOk.pkg_goroutine cls g) ->
+  (forall g js j g', In g gs -> In (Locks.GWait js) g -> In j js -> nth_error gs j = Some g' ->
+                     LockSkelOk.pkg_goroutine cls g') ->
+  let s := Locks.run (Locks.init gs) sched in
+  forall k t, nth_error s k = Some t -> Locks.todo t <> [] -> Locks.enabled s k = false ->
+  exists k', Locks.enabled s k' = true.
+Proof. exact LockSkelOk.scope_locks_no_deadlock. Qed.
+Print Assumptions C09_no_deadlock_on_locks.
+
+(* the skeleton the theorem is about is the checked one and is not trivial *)
+Theorem C09_lock_skeleton_checked :
+  LockSkel.translator_errors = 0 /\
+  forallb (Locks.entry_ok LockSkel.procs LockSkelOk.fuel) (LockSkel.api ++ LockSkel.bg) = true /\
+  (exists f tr o fl', In f LockSkel.bg /\ Locks.exec LockSkel.procs (Locks.Call f) false tr o fl' /\ 20 <= length tr).
+Proof.
+  split; [exact LockSkelOk.translator_clean|]. split; [|exact (proj1 LockSkelOk.skeleton_not_trivial)].
+  apply forallb_forall. intros f Hf. apply in_app_or in Hf as [Hf | Hf].
+  - pose proof LockSkelOk.api_checked as H. rewrite forallb_forall in H. exact (H f Hf).
+  - pose proof LockSkelOk.bg_checked as H. rewrite forallb_forall in H. specialize (H f Hf).
+    apply andb_true_iff in H. tauto.
+Qed.
+Print Assumptions C09_lock_skeleton_checked.
